@@ -68,6 +68,7 @@ class SimTor(object):
         self.setconf_log = []           # parsed SETCONF/RESETCONF arguments as received
         self.onions = collections.OrderedDict()
         self.next_onion = 0
+        self.echo_conf_changed = False  # emit CONF_CHANGED for this controller's own SETCONFs too (before the 250)
         self.on_command = None          # optional hook(line) called before answering
         self.onion_id_hook = None       # callable(parsed ADD_ONION request) -> service id (or None)
         self.onion_key_hook = None      # callable(parsed ADD_ONION request) -> 'TYPE:blob' Tor "generates" (or None)
@@ -236,7 +237,18 @@ class SimTor(object):
         return OK
 
     def cmd_SETCONF(self, rest):
-        return self.apply_setconf(rest)
+        before = collections.OrderedDict((k, list(v)) for k, v in self.conf.items())
+        r = self.apply_setconf(rest)
+        if self.echo_conf_changed and r[0] == 250 and 'CONF_CHANGED' in self.events:
+            # like Tor: every controller that listens - the one that sent the SETCONF included - is told what changed, before
+            # the command is answered
+            lines = ['']
+            for k, v in self.conf.items():
+                if before.get(k) != v and k in self.conf_types:
+                    lines += ['%s=%s' % (k, x) for x in v] if v else [k]
+            if len(lines) > 1:
+                self.event_bytes(ctlcodec.encode_event('CONF_CHANGED', 'multi', lines))
+        return r
 
     def cmd_RESETCONF(self, rest):
         return self.apply_setconf(rest, reset=True)
